@@ -5,6 +5,7 @@ package main
 
 import (
 	"fmt"
+	"go/token"
 	"go/types"
 	"strings"
 
@@ -155,6 +156,10 @@ func (ke *kindEnv) base(st *pstate, a *Sym) KindSet {
 					if k, ok := ke.litKinds(st, x); ok {
 						return k
 					}
+				}
+				// an interface known not to be nil holds a value of some type: reflect has a valid Value for it
+				if isNil, known := evalBool(st, &Sym{K: sCmp, Op: token.EQL, A: x, B: nilSym()}); known && !isNil {
+					return ksValid &^ ks(kInterface)
 				}
 			}
 			return ksAll &^ ks(kInterface)
